@@ -19,7 +19,7 @@ IntLike  == IntTags \cup CodeTags            \* every tag whose representative i
 StdClass == [c_m32700 |-> "ParseError", c_m32600 |-> "InvalidRequestError",
              c_m32601 |-> "MethodNotFoundError", c_m32602 |-> "InvalidParamsError",
              c_m32603 |-> "InternalError", c_m32000 |-> "ServerError",
-             c_2001 |-> "VerifCustomError"]
+             c_2001 |-> "VerifCustomError", i0 |-> "VerifZeroError"]       \* user classes registered for 2001 and for code 0
 ClassOf(code, base) == IF code \in DOMAIN StdClass THEN StdClass[code] ELSE base
 
 AbsentErr == [shape |-> Absent, code |-> NA, message |-> NA, data |-> NA]
